@@ -51,7 +51,9 @@ OrderIrrelevant ==
     LET e == Encode(T, w) d == Decode(T, e.b) IN d.ok /\ d.v = v
 
 Case(v) == [v |-> v, b |-> Encode(T, v).b, alt |-> EncAlt(T, v, EmptySt).b,
-            perms |-> IF T.k \in {"hset", "hmap"} THEN {Encode(T, w).b : w \in OrderVariants(T, v)} ELSE {}]
+            \* all element orders of a top-level hash container - unless its elements contain hash containers
+            \* themselves (then the harness compares lengths and byte multisets)
+            perms |-> IF T.k \in {"hset", "hmap"} /\ ~HasHash(ElemT(T)) THEN {Encode(T, w).b : w \in OrderVariants(T, v)} ELSE {}]
 EmitCases ==
   PrintT(<<"REPLAY", ToJson([ty |-> T, hash |-> HasHash(T), cases |-> [i \in 1..Len(VS(T)) |-> Case(VS(T)[i])]])>>)
 EmitMeta == PrintT(<<"META", ToJson([suffixes |-> Suffixes])>>)
